@@ -129,6 +129,8 @@ func (g *edFG) stmt(kind, modPath string) {
 	case form < 48: // empty block
 		g.before("")
 		g.b.WriteString(kind + " ()\n")
+	case form < 50 && kind != "godebug": // empty block with an end-of-line comment (it becomes LineBlock.Suffix)
+		g.b.WriteString(kind + " () " + r.Pick([]string{"// indirect", "// why", "// indirect; x"}) + "\n")
 	default:
 		g.before("")
 		g.b.WriteString(kind + " (")
